@@ -155,6 +155,20 @@ CHECKS = {
              'Correspondence only: that real files reduce to their descriptor; vendor openers; NITF 2.0; reader construction beyond '
              'SIDD bookkeeping. One source switch (SIDDDetails refuses graphics) is re-read from the source each run. ' + TB,
         technique='Lean 4 proof (induction over DES / image lists, decide on finite cases) + out-of-band descriptor correspondence + matrix oracle'),
+    'C11': dict(
+        text='Lean 4 theorems for the CRSD instantiation of the block layout, for all sizes and header strings: blocks ordered, pairwise '
+             'disjoint, 64-aligned, file end = SIGNAL offset + size, padding < 64 per block; omitting the SUPPORT block equals an empty one; '
+             'for whatever layout the retry rule of make_file_header returns, header text (explicit length model) and terminator end before '
+             'the 64-aligned XML block; packed relative offsets make channels / support arrays tile their block exactly. Every generated '
+             'file (schema-valid CRSD built in code) is parsed by an independent byte-level parser, its payload bytes are compared at the '
+             'computed positions, it is reopened through open_received (all PVP fields, support arrays, raw / formatted signal incl. '
+             'sub-regions, metadata), and the header numbers are compared with the model.',
+        design='DESIGN.md 6/C09 (C11 paragraph)',
+        note='proved: layout / header-fit / tiling arithmetic. Not proved: termination of the retry (fuel). Correspondence: header numbers, '
+             'header text length and retry, element ranges of written files vs model; differential write/read over channels x formats x '
+             'AmpSF x PVP groups x support array kinds x text x header strings x write orders x identifiers x targets. ' + TB,
+        technique='Lean 4 proof (omega, induction on retry fuel and on element lists, reuse of C09 lemmas) + two byte-level parsers + '
+                  'payload byte comparison + write/read differential'),
 }
 
 
